@@ -1,6 +1,11 @@
 package cases
 
-import "covr/internal/e1"
+import (
+	"fmt"
+	"strings"
+
+	"covr/internal/e1"
+)
 
 // by builds a bystander program: plain declarations co-located with a tiny
 // generator (so that the file is processed). Reference = the source package
@@ -214,7 +219,112 @@ func §E() {
 // OptGen returns eta/Delay cases inside generator bodies (compared with the
 // reference coroutine and stage-1 vs final).
 func OptGen() []*e1.Program {
+	return append(optGenDirected(), Nest()...)
+}
+
+func optGenDirected() []*e1.Program {
 	return []*e1.Program{
+		Raw("opt-user-pull-loop-over-reassigned-iterator", `
+func §src(base, n int) ITER[int] GEN[int]{
+	for i := 0; i < n; i++ {
+		tr.E(base + i)
+		YIELD(base + i)
+	}
+	RETNIL
+}GEN
+func §gen() ITER[int] GEN[int]{
+	it, other := §src(0, 3), §src(100, 3)
+	for it.MoveNext() {
+		YIELD(it.Current())
+		it, other = other, it
+	}
+	// a pull loop that is the only statement of its continuation (behind a yielding if)
+	jt := §src(10, 2)
+	if tr.B(1) {
+		YIELD(-1)
+		jt = §src(20, 3)
+	}
+	for jt.MoveNext() {
+		YIELD(jt.Current())
+	}
+	// fallback iterator
+	kt := §src(30, 1)
+	n := 0
+	for kt.MoveNext() {
+		YIELD(kt.Current())
+		if n == 0 {
+			kt = §src(40, 2)
+		}
+		n++
+	}
+	var lt ITER[int] = §src(50, 2)
+	more := func() bool { return lt.MoveNext() }
+	cur := func() int { return lt.Current() }
+	for more() {
+		YIELD(cur())
+		lt = §src(60, 1)
+	}
+	RETNIL
+}GEN
+`+StdEntry, "eta:method-value", "pull-loop"),
+		Raw("opt-yield-of-conversions-and-one-literal-calls", `
+var §ticket = 100
+
+type §dur int64
+
+func §next(step int) int { §ticket += step; return tr.V(1, §ticket) }
+func §name(n int) string { return tr.V(2, "n") + string(rune('a'+n)) }
+func §gen() ITER[int] GEN[int]{
+	§ticket = 100
+	for i := 0; i < 2; i++ {
+		YIELD(§next(1))
+	}
+	for i := 0; i < 2; i++ {
+		YIELD(int(§dur(3)))
+	}
+	for i := 0; i < 2; i++ {
+		YIELD(len(§name(1)))
+	}
+	if tr.B(3) {
+		YIELD(§next(5))
+	} else {
+		YIELD(int(int64(7)))
+	}
+	for tr.B(4) {
+		YIELD(-§next(2))
+	}
+	RETNIL
+}GEN
+`+StdEntry, "delay:literal-call"),
+		Raw("opt-map-range-in-plain-closure-deleting-unvisited-entries", `
+func §gen() ITER[int] GEN[int]{
+	canonical := func(m map[string]int) (n int) {
+		for k := range m {
+			n++
+			for other := range m {
+				if other != k {
+					delete(m, other)
+				}
+			}
+		}
+		return n
+	}
+	YIELD(canonical(map[string]int{"a": 1, "b": 2, "c": 3}))
+	visits := 0
+	m := map[int]int{1: 1, 2: 2, 3: 3, 4: 4}
+	for k := range m {
+		visits++
+		for j := 1; j <= 4; j++ {
+			if j != k {
+				delete(m, j)
+			}
+		}
+		YIELD(len(m))
+	}
+	YIELD(visits)
+	RETNIL
+}GEN
+`+StdEntry, "range:map", "closure:map-delete"),
 		Raw("opt-loop-cond-method-value", `
 type §node struct {
 	v    int
@@ -370,4 +480,107 @@ func §gen() ITER[int] GEN[int]{
 }GEN
 `+StdEntry, "eta:method-value"),
 	}
+}
+
+// Nest returns generators and ordinary closures nested into each other in every order up to depth 4 (the outermost
+// function is a generator). Every ordinary closure returns a value through an interface result, owns a three-clause
+// loop whose variable is captured per iteration and a switch with a ':=' initialiser AFTER its nested literal; every
+// generator literal yields, delegates to / ranges over its child and ends with `return nil`.
+func Nest() []*e1.Program {
+	var out []*e1.Program
+	var shapes []string
+	var rec func(s string)
+	rec = func(s string) {
+		if len(s) >= 2 {
+			shapes = append(shapes, s)
+		}
+		if len(s) == 4 {
+			return
+		}
+		rec(s + "G")
+		rec(s + "P")
+	}
+	rec("G")
+	var body func(shape string, d int) string
+	body = func(shape string, d int) string {
+		var b strings.Builder
+		tab := strings.Repeat("\t", d+1)
+		line := func(format string, a ...any) {
+			b.WriteString(tab)
+			fmt.Fprintf(&b, format, a...)
+			b.WriteByte('\n')
+		}
+		kind := shape[d]
+		hasChild := d+1 < len(shape)
+		if hasChild {
+			if shape[d+1] == 'G' {
+				line("child := func(n int) ITER[int] GEN[int]{")
+			} else {
+				line("child := func(n int) any {")
+			}
+			b.WriteString(body(shape, d+1))
+			if shape[d+1] == 'G' {
+				line("}GEN")
+			} else {
+				line("}")
+			}
+		}
+		if kind == 'G' {
+			line("tr.E(%d)", d*10+1)
+			line("YIELD(n*1000 + %d)", d)
+			if hasChild {
+				if shape[d+1] == 'G' {
+					line("YFROM(child(n + 1))")
+					line("for v := range OVER<<child(n + 2)>>OVER {")
+					line("\tYIELD(-v)")
+					line("}")
+				} else {
+					line("YIELD(child(n + 1).(int))")
+				}
+			}
+			line("for i := 0; i < 2; i++ {")
+			line("\tYIELD(%d + i)", d*100)
+			line("}")
+			line("if tr.B(%d) {", d*10+2)
+			line("\tRETNIL")
+			line("}")
+			line("YIELD(%d)", d*100+9)
+			line("RETNIL")
+		} else {
+			line("total := n")
+			if hasChild {
+				if shape[d+1] == 'G' {
+					line("for it := child(n + 1); it.MoveNext(); {")
+					line("\ttotal += it.Current()")
+					line("}")
+				} else {
+					line("total += child(n + 1).(int)")
+				}
+			}
+			line("var fs []func() int")
+			line("for i := 0; i < 3; i++ {")
+			line("\tfs = append(fs, func() int { return i*10 + n })")
+			line("}")
+			line("switch k := total %% 3; k {")
+			line("case 0, 1:")
+			line("\ttotal += k + 1")
+			line("}")
+			line("for _, f := range fs {")
+			line("\ttotal += f()")
+			line("}")
+			line("if tr.B(%d) {", d*10+3)
+			line("\treturn total + 1")
+			line("}")
+			line("return tr.V(%d, total)", d*10+4)
+		}
+		return b.String()
+	}
+	for _, sh := range shapes {
+		text := "func §gen(n int) ITER[int] GEN[int]{\n" + body(sh, 0) + "}GEN\n" +
+			"func §E() { drv.Run[int](func() drv.It[int] { it := §gen(1); return it }) }\n"
+		p := Raw("nest-"+sh, text, "nest:"+sh)
+		p.MaxPaths = 24
+		out = append(out, p)
+	}
+	return out
 }
